@@ -87,7 +87,7 @@ theorem C08_dropped_operand_collides {L τ : Type} (S : Scheme L τ) (c p : Nat)
 /-- prefix groups whose members are not separated by the rule shape, with the reason they are kept apart
     (or not) by something the table cannot see -/
 def exemptPrefixes : List String :=
-  [ -- OPEN FINDING D17: 25 classes whose `operation` is a staticmethod *named* "operation" share the prefix
+  [ -- OPEN FINDING (S1): 25 classes whose `operation` is a staticmethod *named* "operation" share the prefix
     -- "operation"; equal operand lists give equal names (RenameSeries(s, False, False) vs
     -- MemoryUsagePerPartition(s, False, False); RenameFrame(df, {"a":"x"}) vs ColumnsSetter(df, {"a":"x"}))
     "operation",
@@ -135,7 +135,7 @@ theorem C08_injective_on_table {L τ : Type} (S : Scheme L τ) (hS : S.rules = r
 example : 250 < (Generated.nameRows.filter (goodRow exemptPrefixes)).length := by decide +kernel
 example : (freeScheme (ruleOf Generated.nameRows)).rules = ruleOf Generated.nameRows := rfl
 
-/-- the exempt group "operation" really contains unseparated pairs (D17 is visible in the table) -/
+/-- the exempt group "operation" really contains unseparated pairs (finding S1 is visible in the table) -/
 theorem C08_operation_group_unseparated :
     ∃ g ∈ Generated.nameGroups, ∃ a ∈ g.2, ∃ b ∈ g.2, a.pfx = "operation" ∧ a.id < b.id ∧
       a.cls = "dask_expr._expr.MemoryUsagePerPartition" ∧ b.cls = "dask_expr._expr.RenameSeries" ∧
